@@ -638,3 +638,208 @@ func E2ESessions(args []string) {
 		os.Exit(3)
 	}
 }
+
+// ---- interrupted and resumed sessions with the real binaries (C04 at the application level) -------
+
+type e2eResumeOutcome struct {
+	Session    int      `json:"session"`
+	KillAt     string   `json:"kill_at"`
+	Choice     string   `json:"second_run_choice"`
+	Conns      string   `json:"connections"`
+	FirstExit  int      `json:"first_exit"`
+	FirstDead  bool     `json:"first_killed"`
+	SecondExit int      `json:"second_exit"`
+	SecondDone bool     `json:"second_done"`
+	Equal      bool     `json:"equal"`
+	Diff       []string `json:"diff,omitempty"`
+	Written1   int      `json:"chunks_written_first_run"`
+	Written2   int      `json:"chunks_written_second_run"`
+	Total      int      `json:"chunks_total"`
+	Sidecars   int      `json:"sidecars_after_kill"`
+	JoinTail   string   `json:"join_tail,omitempty"`
+	Trouble    string   `json:"trouble,omitempty"`
+}
+
+func countPt(evs []hookEv, pt string) int {
+	n := 0
+	for _, e := range evs {
+		if e.Pt == pt {
+			n++
+		}
+	}
+	return n
+}
+
+func runE2EResume(idx int, srvURL, thruBin string, seed int64, w io.Writer) e2eResumeOutcome {
+	o := e2eResumeOutcome{Session: idx}
+	work, err := os.MkdirTemp("", "vh-e2er-")
+	if err != nil {
+		o.Trouble = err.Error()
+		return o
+	}
+	defer os.RemoveAll(work)
+	src := filepath.Join(work, "src", "share")
+	const chunk = 65536
+	bigSize := int64(40*chunk + 1234)
+	if err := makeLiteTree(src, []fileSpecLite{{"big.bin", bigSize}, {"small.txt", 77}, {"sub/mid.bin", 3*chunk + 5}}, seed+int64(idx)); err != nil {
+		o.Trouble = err.Error()
+		return o
+	}
+	o.Total = 41 + 1 + 4
+	outDir := filepath.Join(work, "out")
+	_ = os.MkdirAll(outDir, 0o755)
+	o.Conns = []string{"1", "2"}[(int(seed)+idx)%2]
+	kills := []string{"recv.chunk.marked@3", "recv.chunk.written@12", "recv.chunk.marked@30", "sidecar.flush.tmp@2", "recv.chunk.header@20", "recv.finalize@1"}
+	o.KillAt = kills[(int(seed)+idx)%len(kills)]
+	o.Choice = []string{"resume", "resume", "overwrite"}[(int(seed)/2+idx)%3]
+	host, err := startChild(thruBin, []string{"host", src, "--server-url", srvURL, "--stun-server", "stun:127.0.0.1:9", "--total-connections", o.Conns, "--chunk-size", fmt.Sprint(chunk)},
+		filepath.Join(work, "host.trace"), nil, "")
+	if err != nil {
+		o.Trouble = err.Error()
+		return o
+	}
+	defer host.kill()
+	code := ""
+	for i := 0; i < 400 && code == ""; i++ {
+		txt := host.out.String()
+		if j := strings.Index(txt, "Join Code: "); j >= 0 {
+			rest := txt[j+len("Join Code: "):]
+			if k := strings.IndexAny(rest, " \n"); k > 0 {
+				code = rest[:k]
+			}
+		}
+		if code == "" {
+			time.Sleep(20 * time.Millisecond)
+		}
+	}
+	if code == "" {
+		o.Trouble = "no join code"
+		return o
+	}
+	joinArgs := []string{"join", code, "--out", outDir, "--server-url", srvURL, "--stun-server", "stun:127.0.0.1:9"}
+	j1, err := startChild(thruBin, joinArgs, filepath.Join(work, "join1.trace"), []string{"VERIF_HOOK_KILL=" + o.KillAt}, "y\n")
+	if err != nil {
+		o.Trouble = err.Error()
+		return o
+	}
+	c1, done1 := j1.wait(45 * time.Second)
+	if !done1 {
+		j1.kill()
+		o.Trouble = "first join neither finished nor died: " + tailText(j1.out.String(), 200)
+		return o
+	}
+	o.FirstExit = c1
+	o.FirstDead = c1 == -1
+	ev1 := j1.events()
+	o.Written1 = countPt(ev1, "recv.chunk.written")
+	writeNormalisedTrace(w, "join", idx*10+1, ev1, true)
+	if !o.FirstDead {
+		// the kill point was not reached (the transfer was over before the k-th hit): nothing to resume
+		o.Trouble = ""
+	}
+	sc, _ := filepath.Glob(filepath.Join(outDir, ".thruflux_resumedata", "*.sbxmap"))
+	sc2, _ := filepath.Glob(filepath.Join(outDir, "share", ".thruflux_resumedata", "*.sbxmap"))
+	o.Sidecars = len(sc) + len(sc2)
+	// the host learns that the receiver is gone, then the second join
+	time.Sleep(300 * time.Millisecond)
+	answers := "y\n"
+	if o.Sidecars > 0 {
+		if o.Choice == "overwrite" {
+			answers += "o\n"
+		} else {
+			answers += "y\n"
+		}
+	}
+	j2, err := startChild(thruBin, joinArgs, filepath.Join(work, "join2.trace"), nil, answers)
+	if err != nil {
+		o.Trouble = err.Error()
+		return o
+	}
+	defer j2.kill()
+	c2, done2 := j2.wait(60 * time.Second)
+	o.SecondExit, o.SecondDone = c2, done2
+	ev2 := j2.events()
+	o.Written2 = countPt(ev2, "recv.chunk.written")
+	writeNormalisedTrace(w, "join", idx*10+2, ev2, false)
+	host.waitEvent(2*time.Second, func(e hookEv) bool { return e.Pt == "host.transfer.done" })
+	// (the host's own trace interleaves the cancelled first transfer with the second one and is not validated)
+	want, _ := treeDigest(filepath.Join(work, "src"))
+	got, _ := treeDigest(outDir)
+	o.Equal = true
+	for k, v := range want {
+		if got[k] != v {
+			o.Equal = false
+			o.Diff = append(o.Diff, fmt.Sprintf("%s: want %s got %s", k, v, got[k]))
+		}
+	}
+	for k := range got {
+		if _, ok := want[k]; !ok {
+			o.Equal = false
+			o.Diff = append(o.Diff, "unexpected "+k)
+		}
+	}
+	if len(o.Diff) > 5 {
+		o.Diff = o.Diff[:5]
+	}
+	o.JoinTail = tailText(j2.out.String(), 300)
+	return o
+}
+
+// E2EResume: real host, a real join that is killed in mid-transfer, a second real join into the same
+// directory (answering the resume / overwrite prompt); the second run must succeed with the identical tree.
+func E2EResume(args []string) {
+	fs := flag.NewFlagSet("e2e-resume", flag.ExitOnError)
+	n := fs.Int("n", 6, "sessions (over all shards)")
+	shard := fs.Int("shard", 0, "shard")
+	shards := fs.Int("shards", 1, "shards")
+	thruserv := fs.String("thruserv", "", "thruserv binary")
+	thru := fs.String("thru", "", "thru binary (built with -tags verif)")
+	seed := fs.Int64("seed", 1, "seed")
+	traceOut := fs.String("trace-out", "", "prefix of the combined trace file (the shard number is appended)")
+	fs.Parse(args)
+	srv, err := startServer(*thruserv, nil, unlimited...)
+	if err != nil {
+		fmt.Fprintln(os.Stderr, err)
+		os.Exit(3)
+	}
+	defer srv.stop()
+	f, err := os.Create(fmt.Sprintf("%s.%d", *traceOut, *shard))
+	if err != nil {
+		fmt.Fprintln(os.Stderr, err)
+		os.Exit(3)
+	}
+	defer f.Close()
+	res := &Result{Extra: map[string]any{}}
+	outcomes := map[string]int{}
+	trouble := 0
+	for i := 0; i < *n; i++ {
+		if i%*shards != *shard {
+			continue
+		}
+		o := runE2EResume(i, srv.url, *thru, *seed, f)
+		if o.Trouble != "" {
+			trouble++
+			fmt.Fprintln(os.Stderr, "trouble:", o.Trouble)
+			continue
+		}
+		res.Behaviours++
+		if o.FirstDead {
+			res.Distinct++
+		}
+		ok := o.SecondDone && o.SecondExit == 0
+		switch {
+		case !ok:
+			res.AddViolation(map[string]any{"prop": "C04", "kind": "resumed_session_failed", "choice": o.Choice}, o)
+		case !o.Equal:
+			res.AddViolation(map[string]any{"prop": "C04", "kind": "tree_differs_after_resumed_session", "choice": o.Choice}, o)
+		}
+		outcomes[fmt.Sprintf("killed=%v choice=%s ok=%v equal=%v", o.FirstDead, o.Choice, ok, o.Equal)]++
+		res.AddSample(map[string]any{"kill": o.KillAt, "choice": o.Choice, "written_first": o.Written1, "written_second": o.Written2, "total": o.Total, "sidecars": o.Sidecars}, 6)
+	}
+	res.Extra["outcomes"] = outcomes
+	res.Extra["trouble"] = trouble
+	res.Print()
+	if trouble > res.Behaviours/3+1 {
+		os.Exit(3)
+	}
+}
